@@ -1,7 +1,8 @@
 // Package c17: `caddy fmt` never changes what a Caddyfile means — correspondence cases
 // (real caddyfile.Format / caddyfile.Tokenize vs the Lean models) and the impl-only oracle
 // (Tokenize(Format x) vs Tokenize x on texts, quote kind and line grouping; Format idempotent;
-// output shape and size; termination).
+// output shape and size; termination). The command around the formatter (`caddy fmt <file>`,
+// --overwrite, --diff, stdin) is driven through the real cmdFmt by the `cf` op, see cmdfmt.go.
 package c17
 
 import (
@@ -39,6 +40,7 @@ func (p *prop) Finish(s *core.Session) {
 		s.Meta.Extra = map[string]any{}
 	}
 	s.Meta.Extra["shortest_failing_case_by_class"] = p.shortest
+	cleanupCmdFmt()
 }
 
 // ---------------------------------------------------------------- running the real code
@@ -173,6 +175,9 @@ const boundMul, boundAdd = 31, 14
 
 func (p *prop) Run(line string) core.Outcome {
 	f := strings.Fields(line)
+	if len(f) > 0 && f[0] == "cf" {
+		return p.runCf(line, f)
+	}
 	if len(f) != 2 || f[0] != "rt" {
 		return core.Outcome{Impl: "bad-op"}
 	}
